@@ -11,6 +11,8 @@ PROP = dict(
         "MM.C39.sync_step",
         "MM.C39.C39_partial",
         "MM.C39.C39_local_ids_never_reused",
+        "MM.C39.C39_issue_is_begin_then_end",
+        "MM.C39.C39_failed_send_and_sleep_keep_ids_burnt",
         "MM.C39.sync_init",
         "MM.C39.C39_refuted",
         "MM.C39.C39_refuted_trace",
@@ -19,7 +21,7 @@ PROP = dict(
     spec=True,
     rule="one real agent (agent.New, injected peers) as transit and originator: requesters number their requests 1,2,3,... each (collisions) "
          "or use globally distinct ids; direct targets, explicit one/two-element paths, unknown targets, unconnected next hops, requests for "
-         "the agent itself, local SendControlRequest calls (goroutine per call) incl. their lifecycle: the caller's context is cancelled, a new request is issued straight after, the stale answer arrives before or after the new one's, responses in FIFO order, out of order, duplicated, from the "
+         "the agent itself, local SendControlRequest calls (goroutine per call) incl. their lifecycle: the caller's context is cancelled, a new request is issued straight after, the stale answer arrives before or after the new one's; writes to the next hop that fail or stall-then-fail/complete while other requests are in flight; the agent's real enterSleep/exitSleep between requests, responses in FIFO order, out of order, duplicated, from the "
          "wrong peer, with unknown ids, peers disconnecting with requests in flight, ids 0, 2^63, 2^64-1, long histories. The spec keeps per "
          "(next hop, id) the queue of requesters and recomputes who must get each response; non-trivial = a frame or a delivery was produced",
     nontrivial=lambda op, out: "out=[]" not in out,
